@@ -204,6 +204,30 @@ func init() {
 		ex.obs = append(ex.obs, Observation{Name: name, T: v.T, Kind: "int"})
 		return nil
 	}
+	intercepts[apdP+"verifObserveFloat"] = func(ex *Exec, a []Value, c *ssa.CallCommon) Value {
+		name, _ := a[0].(StrV).Concrete()
+		ex.obs = append(ex.obs, Observation{Name: name, T: ex.floatBits(a[1]), Kind: "int"})
+		return nil
+	}
+	intercepts[apdP+"verifFloatNearest"] = func(ex *Exec, a []Value, c *ssa.CallCommon) Value {
+		cv := ex.load(a[2].(PtrV)).(IntV)
+		e := ex.concretize(a[3].(IntV), "verifFloatNearest").Int64()
+		return BoolV{ex.floatNearest(a[0], a[1].(BoolV).T, cv, e)}
+	}
+	// verifMakeFloat(neg, m *BigInt, k): the float64 (-1)^neg * m * 2^k, 2^52 <= m < 2^53
+	intercepts[apdP+"verifMakeFloat"] = func(ex *Exec, a []Value, c *ssa.CallCommon) Value {
+		m := ex.load(a[1].(PtrV)).(IntV)
+		k := int(ex.concretize(a[2].(IntV), "verifMakeFloat").Int64())
+		neg := ex.decide(a[0].(BoolV).T)
+		ex.assumeT(Le(IntConst(two52), m.T))
+		ex.assumeT(Lt(m.T, IntConst(two53)))
+		ex.refine(m.T, two52, new(big.Int).Sub(two53, bigOneI))
+		ex.checkNormal(k)
+		return SymFloatV{Neg: neg, M: m.T, K: k}
+	}
+	intercepts[apdP+"verifFloatSame"] = func(ex *Exec, a []Value, c *ssa.CallCommon) Value {
+		return BoolV{Eq(ex.floatBits(a[0]), ex.floatBits(a[1]))}
+	}
 	intercepts[apdP+"verifObserveStr"] = func(ex *Exec, a []Value, c *ssa.CallCommon) Value {
 		name, _ := a[0].(StrV).Concrete()
 		ex.obs = append(ex.obs, Observation{Name: name, Kind: "str", Str: a[1].(StrV).B})
@@ -871,7 +895,12 @@ func (ex *Exec) bigDigits(x IntV) []*Term {
 	for i := n - 1; i >= 0; i-- {
 		p := new(big.Int).Exp(ten, big.NewInt(i), nil)
 		d := FMod(FDiv(a.T, IntConst(p)), IntConst64(10))
-		out = append(out, Add(d, IntConst64('0')))
+		b := Add(d, IntConst64('0'))
+		if ex.digOrigin == nil {
+			ex.digOrigin = map[*Term]digOrigin{}
+		}
+		ex.digOrigin[b] = digOrigin{x: a.T, pos: int(i), n: int(n)}
+		out = append(out, b)
 	}
 	return out
 }
@@ -930,6 +959,33 @@ func (ex *Exec) parseDecimalInt(s StrV, allowSign bool) (IntV, bool) {
 	}
 	if len(bs) == 0 {
 		return IntV{}, false
+	}
+	// a complete run of digits printed from one non-negative integer denotes that integer
+	if o, ok := ex.digOrigin[bs[0]]; ok && o.n == len(bs) && o.pos == o.n-1 {
+		run := true
+		for i, b := range bs {
+			if oo, ok := ex.digOrigin[b]; !ok || oo.x != o.x || oo.pos != o.n-1-i {
+				run = false
+				break
+			}
+		}
+		if run {
+			hi := new(big.Int).Exp(big.NewInt(10), big.NewInt(int64(len(bs))), nil)
+			hi.Sub(hi, bigOneI)
+			v := IntV{T: o.x, Lo: big.NewInt(0), Hi: hi}
+			if lo, h2 := ex.bounds(v); lo != nil || h2 != nil {
+				if lo != nil && lo.Sign() > 0 {
+					v.Lo = lo
+				}
+				if h2 != nil && h2.Cmp(hi) < 0 {
+					v.Hi = h2
+				}
+			}
+			if neg {
+				v = ex.bigNeg(v)
+			}
+			return v, true
+		}
 	}
 	conds := make([]*Term, 0, len(bs))
 	for _, b := range bs {
@@ -1017,6 +1073,8 @@ func (ex *Exec) externalStub(name string) interceptFn {
 						v += 32
 					}
 					out = append(out, c8(v))
+				} else if _, isDigit := ex.digOrigin[b]; isDigit {
+					out = append(out, b)
 				} else {
 					out = append(out, Ite(And(Le(c8('A'), b), Le(b, c8('Z'))), Add(b, c8(32)), b))
 				}
@@ -1191,7 +1249,14 @@ func (ex *Exec) externalStub(name string) interceptFn {
 		return func(ex *Exec, a []Value, c *ssa.CallCommon) Value {
 			str, ok := a[0].(StrV).Concrete()
 			if !ok {
-				ex.stop("cut_float", name+" on a symbolic string")
+				if a[1].(IntV).Const().Int64() != 64 {
+					ex.stop("cut_float", name+" (bitSize 32) on a symbolic string")
+				}
+				v, ok := ex.parseFloatSym(a[0].(StrV))
+				if !ok {
+					return TupleV{FloatV{0}, ex.newError("strconv.ParseFloat")}
+				}
+				return TupleV{v, IfaceV{}}
 			}
 			f, err := strconv.ParseFloat(str, int(a[1].(IntV).Const().Int64()))
 			if err != nil {
@@ -1203,18 +1268,91 @@ func (ex *Exec) externalStub(name string) interceptFn {
 		return func(ex *Exec, a []Value, c *ssa.CallCommon) Value {
 			f, ok := a[1].(FloatV)
 			if !ok {
-				ex.stop("cut_float", name+" on a symbolic float")
+				if a[4].(IntV).Const().Int64() != 64 {
+					ex.stop("cut_float", name+" (bitSize 32) on a symbolic float")
+				}
+				bs := ex.appendFloatSym(a[1], byte(a[2].(IntV).Const().Int64()), int(a[3].(IntV).Const().Int64()))
+				return ex.appendBytes(a[0].(SliceV), bs)
 			}
 			out := strconv.AppendFloat(nil, f.F, byte(a[2].(IntV).Const().Int64()), int(a[3].(IntV).Const().Int64()), int(a[4].(IntV).Const().Int64()))
 			return ex.appendBytes(a[0].(SliceV), ConstStr(string(out)).B)
 		}
 	case "strconv.FormatFloat":
 		return func(ex *Exec, a []Value, c *ssa.CallCommon) Value {
+			if f, ok := a[0].(FloatV); ok {
+				return ConstStr(strconv.FormatFloat(f.F, byte(a[1].(IntV).Const().Int64()), int(a[2].(IntV).Const().Int64()), int(a[3].(IntV).Const().Int64())))
+			}
+			if a[3].(IntV).Const().Int64() != 64 {
+				ex.stop("cut_float", name+" (bitSize 32) on a symbolic float")
+			}
+			return StrV{B: ex.appendFloatSym(a[0], byte(a[1].(IntV).Const().Int64()), int(a[2].(IntV).Const().Int64()))}
+		}
+	case "math.NaN":
+		return func(ex *Exec, a []Value, c *ssa.CallCommon) Value { return FloatV{math.NaN()} }
+	case "math.Inf":
+		return func(ex *Exec, a []Value, c *ssa.CallCommon) Value {
+			return FloatV{math.Inf(int(a[0].(IntV).Const().Int64()))}
+		}
+	case "math.Copysign":
+		return func(ex *Exec, a []Value, c *ssa.CallCommon) Value {
+			x, ok1 := a[0].(FloatV)
+			y, ok2 := a[1].(FloatV)
+			if !ok1 || !ok2 {
+				ex.stop("cut_float", name)
+			}
+			return FloatV{math.Copysign(x.F, y.F)}
+		}
+	case "math.Float64bits":
+		return func(ex *Exec, a []Value, c *ssa.CallCommon) Value {
+			t := ex.floatBits(a[0])
+			if t.IsConst() {
+				return ConstBig(t.Val)
+			}
+			return IntV{T: t, Lo: big.NewInt(0), Hi: bvMask(64)}
+		}
+	case "math.Signbit":
+		return func(ex *Exec, a []Value, c *ssa.CallCommon) Value {
+			switch f := ex.asSym(a[0]).(type) {
+			case FloatV:
+				return ConstBool(math.Signbit(f.F))
+			case SymFloatV:
+				return ConstBool(f.Neg)
+			}
 			ex.stop("cut_float", name)
 			return nil
 		}
+	case "math.IsInf":
+		return func(ex *Exec, a []Value, c *ssa.CallCommon) Value {
+			if f, ok := a[0].(FloatV); ok {
+				return ConstBool(math.IsInf(f.F, int(a[1].(IntV).Const().Int64())))
+			}
+			return ConstBool(false) // symbolic floats are finite by construction
+		}
+	case "math.Abs":
+		return func(ex *Exec, a []Value, c *ssa.CallCommon) Value {
+			switch f := a[0].(type) {
+			case FloatV:
+				return FloatV{math.Abs(f.F)}
+			case SymFloatV:
+				f.Neg = false
+				return f
+			case NearestV:
+				f.Neg = false
+				return f
+			}
+			ex.stop("cut_float", name)
+			return nil
+		}
+	case "math.Trunc":
+		return func(ex *Exec, a []Value, c *ssa.CallCommon) Value { return ex.floatRoundInt(name, a[0]) }
 	case "math.Log", "math.Log10", "math.Ceil", "math.IsNaN", "math.Floor":
 		return func(ex *Exec, a []Value, c *ssa.CallCommon) Value {
+			if (name == "math.Ceil" || name == "math.Floor") && isSymFloat(a[0]) {
+				return ex.floatRoundInt(name, a[0])
+			}
+			if name == "math.IsNaN" && isSymFloat(a[0]) {
+				return ConstBool(false)
+			}
 			f, ok := a[0].(FloatV)
 			if !ok {
 				ex.stop("cut_float", name)
@@ -1368,6 +1506,10 @@ func init() {
 		s := a[0].(StrV)
 		out := make([]*Term, len(s.B))
 		for i, b := range s.B {
+			if _, isDigit := ex.digOrigin[b]; isDigit {
+				out[i] = b // a digit printed from an integer: '0'..'9' by construction
+				continue
+			}
 			out[i] = Ite(And(Le(IntConst64('A'), b), Le(b, IntConst64('Z'))), Add(b, IntConst64(32)), b)
 		}
 		return StrV{B: out}
